@@ -9,6 +9,7 @@ Inductive case :=
 | CRegs (C : Circuit) (s : nat) (order : list string) (obs : res Circuit)     (* order = list(c.graph.nodes) *)
 | CRegsG (C : Circuit) (s : nat) (order : list string) (A : reg_args) (obs : res Circuit)   (* non-default flop / ports / other_flop_io / suffix *)
 | CRegsW (C : Circuit) (s : nat) (order : list string) (A : reg_args) (obs : res Circuit)   (* witnesses outside the theorem guards: the property is silent, only the tie is checked *)
+| CRegsB (C : Circuit) (s : nat) (order : list string) (obs : res Circuit)   (* argument that already holds blackbox instances *)
 | CUnroll (C : Circuit) (obs : res Circuit).                                   (* acyclic_unroll of an acyclic circuit: oracle only *)
 
 Definition agree (k : case) : bool :=
@@ -18,6 +19,7 @@ Definition agree (k : case) : bool :=
   | CFanout C k steps obs => bool_decide (limit_fanout_run_api C k steps = obs)
   | CRegs C s order obs => bool_decide (insert_registers_api default_reg_args C s order = obs) && bool_decide (insert_registers C s order = obs)
   | CRegsG C s order A obs => bool_decide (insert_registers_api A C s order = obs)
+  | CRegsB C s order obs => bool_decide (insert_registers_api default_reg_args C s order = obs) && bool_decide (insert_registers C s order = obs)
   (* an implementation that starts validating its arguments (ValueError) is fine too *)
   | CRegsW C s order A obs => match obs with Raise ValueError => true | _ => bool_decide (insert_registers_api A C s order = obs) end
   | CUnroll _ _ => true
@@ -53,6 +55,14 @@ Definition holds (k : case) : bool :=
       && bool_decide (inputs (c_g C) ⊆ inputs (c_g C')) && bool_decide (inputs (c_g C') ⊆ inputs (c_g C) ∪ keys)
       && equiv_check_ext (c_g C) (short_flops_gen (ra_d A) (ra_q A) C') (keys ∪ pins) && lint_cleanb C'
   | CRegsG C s order A (Raise ValueError) => negb (acyclicb (c_g C)) || no_boundary (c_g C) s
+  | CRegsB C s order (Ok C') =>
+      (* only the NEW instances are made transparent; the instances of the argument stay, with their definitions *)
+      let shorted := set_fold (λ inst g, <[pin inst "q" := mk_node Buf false {[pin inst "d"]}]> g) (c_g C') (dom (c_bbs C') ∖ dom (c_bbs C)) in
+      bool_decide (outputs (c_g C') = outputs (c_g C))
+      && bool_decide (inputs (c_g C) ⊆ inputs (c_g C')) && bool_decide (inputs (c_g C') ⊆ inputs (c_g C) ∪ {[clk_name]})
+      && bool_decide (map_Forall (λ inst d, c_bbs C' !! inst = Some d) (c_bbs C))
+      && equiv_check_ext (c_g C) shorted {[clk_name]} && lint_cleanb C'
+  | CRegsB _ _ _ (Raise ValueError) => true      (* the property speaks about combinational designs; a rejection is fine, a changed argument is not (reported as OtherError) *)
   | CRegsW _ _ _ _ _ => true
   | CUnroll C (Ok C') =>
       same_io (c_g C) (c_g C') && lint_cleanb C' &&
